@@ -76,6 +76,24 @@ from nemoguardrails.utils import console, new_event_dict, new_readable_uuid, new
 log = logging.getLogger(__name__)
 
 
+# Verification hook (inactive unless NEMO_GUARDRAILS_VERIF=1): a budget on the number of
+# internal events processed by one run_to_completion call, so that a non-terminating
+# event cascade is a fast, deterministic observation. The exception derives from
+# BaseException so that the interpreter's own `except Exception` handlers cannot swallow it.
+import os as _verif_os
+
+_VERIF_MAX_STEPS = (
+    int(_verif_os.environ.get("NEMO_GUARDRAILS_VERIF_MAX_STEPS", "0") or 0)
+    if _verif_os.environ.get("NEMO_GUARDRAILS_VERIF") == "1"
+    else 0
+)
+
+
+class VerifStepBudgetExceeded(BaseException):
+    """Raised (only with the verification hook enabled) when the step budget is exceeded."""
+
+
+
 def initialize_state(state: State) -> None:
     """
     Initialize the state to make it ready for the story start.
@@ -284,6 +302,8 @@ def run_to_completion(state: State, external_event: Union[dict, Event]) -> State
     actionable_heads: List[FlowHead] = []
     merging_heads: List[FlowHead] = []
 
+    _verif_steps = 0
+
     # Main processing loop
     heads_are_advancing = True
     heads_are_merging = True
@@ -292,6 +312,11 @@ def run_to_completion(state: State, external_event: Union[dict, Event]) -> State
             while state.internal_events:
                 event = state.internal_events.popleft()
                 log.info("Process internal event: %s", event)
+
+                if _VERIF_MAX_STEPS:
+                    _verif_steps += 1
+                    if _verif_steps > _VERIF_MAX_STEPS:
+                        raise VerifStepBudgetExceeded(_verif_steps)
 
                 # Find all active interaction loops
                 active_interaction_loops = set()
